@@ -181,7 +181,7 @@ crate::harnesses! {
     @quick c03_taint[4] => taint();
     @quick c03_interval_merge_8_s15[4] => interval_merge(8, 15);
     c03_interval_merge_8[4] => interval_merge(8, 255);
-    c03_interval_merge_64_s16[4] => interval_merge(64, 16);
+    @stretch c03_interval_merge_64_s16[4] => interval_merge(64, 16);
     @stretch c03_domain_merge_nohints_8[4] => domain_merge_nohints(8, 255);
     @stretch c03_domain_merge_lower_8[4] => domain_merge_hints(8, 255, true, false);
     @stretch c03_domain_merge_upper_8[4] => domain_merge_hints(8, 255, false, true);
